@@ -120,6 +120,7 @@ type PLine struct {
 	Err  string          `json:"err,omitempty"`
 	Sent []PPkt          `json:"sent"` // packets committed in this step
 	Wack []PWAck         `json:"wack"` // acknowledgements written in this step
+	Xi   string          `json:"xi"`   // XImport: "same" or the modules whose re-export differs
 	St   PState          `json:"st"`
 }
 
@@ -456,6 +457,10 @@ func (w *PFMWorld) Exec(a PAction) (line PLine) {
 		line.Res = "ok"
 		return line
 
+	case "XImport":
+		line.Res, line.Xi, line.Err = w.exportImport(a.C)
+		return line
+
 	case "Transfer":
 		l := w.links[a.L]
 		e := l.ep(a.C)
@@ -476,6 +481,16 @@ func (w *PFMWorld) Exec(a PAction) (line PLine) {
 	case "Recv", "Ack", "Timeout":
 		k := pktKey(a.Pkt.Src, a.Pkt.L, a.Pkt.Seq)
 		p, ok := w.real[k]
+		if ok {
+			// the schedule must name the packet the chains really hold under this identifier
+			r := w.absPacket(p)
+			bz1, _ := json.Marshal(r)
+			bz2, _ := json.Marshal(*a.Pkt)
+			var n1, n2 any
+			_ = json.Unmarshal(bz1, &n1)
+			_ = json.Unmarshal(bz2, &n2)
+			ok = fmt.Sprint(n1) == fmt.Sprint(n2)
+		}
 		if !ok {
 			w.blockAt(a.Pkt.Src, w.finalTime())
 			line.Res, line.Err = "err", "unknown packet"
